@@ -4,3 +4,4 @@ import LeraxModel.Env
 import LeraxModel.Rescale
 import LeraxModel.Replay
 import LeraxModel.Batching
+import LeraxModel.OnPolicy
